@@ -42,7 +42,7 @@ def model_heap(chk, thorough):
     """the heap-ownership machine: safe programs hold, today's program and the forget-only repair are refuted"""
     lens = "{0, 1, 2, 3, 4, 5, 6}" if thorough else "{0, 1, 2, 3}"
     cfg = write_cfg(os.path.join(chk.wd, "heap_safe.cfg"), constants=consts(SAFE_PROGS, lens=lens), invariants=HEAP_INVS)
-    res = tlc_check("SigHeap", cfg, chk.wd, workers=1, timeout=300, coverage=True)
+    res = tlc_check("SigHeap", cfg, chk.wd, workers=1, timeout=1500, coverage=True)
     zero = [a for a in res.coverage_zero_actions() if a in ("Alloc", "Move", "Transfer", "DropNothing", "Free", "Read")]
     if zero:
         raise ToolError("SigHeap: action never taken: %s" % zero)
@@ -54,28 +54,28 @@ def model_heap(chk, thorough):
     for inv in witnesses:
         cfg = write_cfg(os.path.join(chk.wd, "heap_today.cfg"),
                         constants=consts('{"reinterpret"}', fc=False, widths="{2, 4}", lens=lens), invariants=[inv])
-        res = tlc_check("SigHeap", cfg, chk.wd, workers=1, timeout=300, expect_violation=inv)
+        res = tlc_check("SigHeap", cfg, chk.wd, workers=1, timeout=1500, expect_violation=inv)
         chk.tlc_stats(res)
     log("[C18] SigHeap ForgetClone=FALSE (today's Vec<u16>/Vec<u32>): %s violated, as expected" % ", ".join(witnesses))
     # forget only: no double free any more, but the free uses align 1 for an align 2/4 block
     keep = [i for i in HEAP_INVS if i not in ("InvLayout", "InvSafe")]
     cfg = write_cfg(os.path.join(chk.wd, "heap_forget.cfg"),
                     constants=consts('{"reinterpret"}', fc=True, widths="{2, 4}", lens=lens), invariants=keep)
-    res = tlc_check("SigHeap", cfg, chk.wd, workers=1, timeout=300)
+    res = tlc_check("SigHeap", cfg, chk.wd, workers=1, timeout=1500)
     chk.tlc_stats(res)
     cfg = write_cfg(os.path.join(chk.wd, "heap_forget2.cfg"),
                     constants=consts('{"reinterpret"}', fc=True, widths="{2, 4}", lens=lens), invariants=["InvLayout"])
-    res = tlc_check("SigHeap", cfg, chk.wd, workers=1, timeout=300, expect_violation="InvLayout")
+    res = tlc_check("SigHeap", cfg, chk.wd, workers=1, timeout=1500, expect_violation="InvLayout")
     chk.tlc_stats(res)
     log("[C18] SigHeap ForgetClone=TRUE: no double free, InvLayout violated (align 1 vs 2/4), as expected")
     if thorough:
         cfg = write_cfg(os.path.join(chk.wd, "heap_forget1.cfg"),
                         constants=consts('{"reinterpret"}', fc=True, widths="{1}", lens=lens), invariants=HEAP_INVS)
-        res = tlc_check("SigHeap", cfg, chk.wd, workers=1, timeout=300)
+        res = tlc_check("SigHeap", cfg, chk.wd, workers=1, timeout=1500)
         chk.tlc_stats(res)
         cfg = write_cfg(os.path.join(chk.wd, "heap_alias.cfg"),
                         constants=consts('{"alias_self"}', widths="{1, 2}", lens=lens), invariants=["InvNoDoubleFree"])
-        res = tlc_check("SigHeap", cfg, chk.wd, workers=1, timeout=300, expect_violation="InvNoDoubleFree")
+        res = tlc_check("SigHeap", cfg, chk.wd, workers=1, timeout=1500, expect_violation="InvNoDoubleFree")
         chk.tlc_stats(res)
     return n_safe
 
@@ -451,11 +451,11 @@ def selftest(chk):
             ("ForgetClone=TRUE", consts('{"reinterpret"}', fc=True, widths="{2, 4}"), "InvLayout"),
             ("alias_self", consts('{"alias_self"}', widths="{1}"), "InvNoDoubleFree")]:
         cfg = write_cfg(os.path.join(wd, "st_heap.cfg"), constants=c, invariants=[inv])
-        tlc_check("SigHeap", cfg, wd, workers=1, timeout=300, expect_violation=inv)
+        tlc_check("SigHeap", cfg, wd, workers=1, timeout=1500, expect_violation=inv)
         log("[C18 selftest] SigHeap %s: %s refuted by TLC" % (name, inv))
     cfg = write_cfg(os.path.join(wd, "st_bytes.cfg"), constants=consts(drop=True, maxlen=2), invariants=["InvInjective"],
                     init="BInit", nxt="BNext")
-    tlc_check("SigHeap", cfg, wd, workers=1, timeout=300, xss=True, expect_violation="InvInjective")
+    tlc_check("SigHeap", cfg, wd, workers=1, timeout=1500, xss=True, expect_violation="InvInjective")
     log("[C18 selftest] SigHeap DropHigh=TRUE: InvInjective refuted by TLC")
     # 2. a recorded trace of types that are sound today must be accepted ...
     descs = [dict(site="get_sig", type="u32", val=[0x01020304]), dict(site="get_sig", type="Vec<u8>", val=[1, 2, 3, 4, 5]),
